@@ -21,7 +21,8 @@ def sorted_positions(labels):
     return order
 
 
-def reindex(ctx, shape, pos, lkind, k, form='list', fill='nan', raise_error=False, method=None, dkind='f', own=False, axis_by='name', qkind=None, twice=False):
+def reindex(ctx, shape, pos, lkind, k, form='list', fill='nan', raise_error=False, method=None, dkind='f', own=False, axis_by='name', qkind=None, twice=False, under=None):
+    ctx.under(under)
     lkinds = ['i'] * len(shape)
     lkinds[pos] = lkind
     a, ref, dims, labels = build(ctx, shape, lkinds, dkind)
@@ -203,6 +204,9 @@ def templates():
                     cost=3, shape=shape, pos=pos, lkind='iU'[pos % 2], k=k, axis_by=axis_by, fill='sym' if pos else 'nan')
     add('nd-square-neg', 'reindex', cost=3, shape=[2, 2], pos=1, lkind='i', k=2, axis_by='neg')
     add('nd-square-neg-3d', 'reindex', cost=3, shape=[2, 2, 2], pos=1, lkind='i', k=2, axis_by='neg', fill='sym')
+    add('under-position-1d', 'reindex', cost=3, shape=[3], pos=0, lkind='i', k=2, under={'indexing.by': 'position'})
+    add('under-position-2d', 'reindex', cost=3, shape=[2, 3], pos=1, lkind='i', k=2, fill='sym', under={'indexing.by': 'position'})
+    add('under-position-repeated', 'reindex', cost=8, shape=[3], pos=0, lkind='i', k=3, under={'indexing.by': 'position'})
     for lk0, lk1 in (('i', 'i'), ('U', 'f')):
         add('like-%s%s' % (lk0, lk1), 'reindex_like', cost=6, lk0=lk0, lk1=lk1)
     return ts
